@@ -1,7 +1,7 @@
 (* C04 - the archive holds exactly the non-dominated set of everything ever offered. *)
 From Coq Require Import List Arith Bool ZArith Permutation.
 From Artap Require Import Base.Ord Base.FloatInst Base.QInst Base.StableSort Model.Dominance Model.Archive
-  Proofs.DominanceProofs Proofs.ArchiveProofs Proofs.ArchiveParetoInst.
+  Proofs.DominanceProofs Proofs.ArchiveProofs Proofs.ArchiveParetoInst Proofs.ArchiveEpsInst Proofs.ArchiveExtra.
 Import ListNotations.
 
 (* --- for every comparator satisfying the laws (ArchLaws) ------------------------------- *)
@@ -44,6 +44,11 @@ Section C04_generic.
     forall c, wf c -> ((exists y, In y (archive_adds cmp ceq [] xs) /\ ceq y c = true) <->
                        (exists y, In y (archive_adds cmp ceq [] ys) /\ ceq y c = true)).
   Proof. exact (order_independent cmp ceq dom wf L). Qed.
+
+  (* Archive.remove deletes the first member equal to the solution; the invariant survives *)
+  Theorem C04_remove_keeps_invariant : forall (ieq : C -> C -> bool) a s,
+    Inv ceq dom wf a -> Inv ceq dom wf (fst (archive_remove ieq a s)).
+  Proof. exact (fun ieq => remove_keeps_invariant ieq ceq dom wf). Qed.
 End C04_generic.
 
 (* --- the Pareto comparator of C01 satisfies the laws, for any strictly-weakly-ordered cost type --- *)
@@ -51,12 +56,33 @@ Theorem C04_pareto_laws : forall {T} (ltb : T -> T -> bool), SWO ltb -> forall m
   ArchLaws (acmp ltb) (aceq ltb) (adom ltb) (awf m).
 Proof. exact (@pareto_arch_laws). Qed.
 
+(* --- so does the epsilon comparator, over offered vectors U that are pairwise separated (C01's eps_agrees
+   hypothesis), have canonical markers, and a tie-break oracle that does not prefer one of two equal vectors;
+   dom is the Pareto dominance, so the conclusions are about the true non-dominated set --- *)
+Theorem C04_eps_laws : forall {T} (ltb : T -> T -> bool), SWO ltb -> forall m sc dist (U : list (@aind T)),
+  (forall x, In x U -> awf m x) ->
+  (forall x y, In x U -> In y U -> separated ltb sc (fst (acost x)) (fst (acost y))) ->
+  (forall x y, In x U -> In y U -> Z.abs (snd (acost x)) = Z.abs (snd (acost y)) -> snd (acost x) = snd (acost y)) ->
+  (forall x y, In x U -> In y U -> aceq ltb x y = true -> ltb (dist x) (dist y) = false) ->
+  ArchLaws (ecmp ltb sc dist) (aceq ltb) (adom ltb) (ewf U).
+Proof. exact (@eps_arch_laws). Qed.
+
 (* hence, for binary64 costs compared with Python's `<` *)
 Theorem C04_float_history : forall m xs, Forall (awf m) xs ->
   let a := archive_adds (acmp fltb) (aceq fltb) [] xs in
   Inv (aceq fltb) (adom fltb) (awf m) a /\ incl a xs /\
   forall c, awf m c -> ((exists y, In y a /\ aceq fltb y c = true) <-> maximal (aceq fltb) (adom fltb) xs c).
 Proof. exact (fun m => history_is_maximal_set _ _ _ _ (pareto_arch_laws fltb fltb_SWO m)). Qed.
+
+Theorem C04_float_eps_history : forall m sc dist (xs : list (@aind PrimFloat.float)),
+  (forall x, In x xs -> awf m x) ->
+  (forall x y, In x xs -> In y xs -> separated fltb sc (fst (acost x)) (fst (acost y))) ->
+  (forall x y, In x xs -> In y xs -> Z.abs (snd (acost x)) = Z.abs (snd (acost y)) -> snd (acost x) = snd (acost y)) ->
+  (forall x y, In x xs -> In y xs -> aceq fltb x y = true -> fltb (dist x) (dist y) = false) ->
+  let a := archive_adds (ecmp fltb sc dist) (aceq fltb) [] xs in
+  Inv (aceq fltb) (adom fltb) (ewf xs) a /\ incl a xs /\
+  forall c, In c xs -> ((exists y, In y a /\ aceq fltb y c = true) <-> maximal (aceq fltb) (adom fltb) xs c).
+Proof. exact (eps_history fltb fltb_SWO). Qed.
 
 (* --- truncate keeps the members with the largest feature value --- *)
 Theorem C04_truncate_keeps_largest : forall {C} (key_leb : C -> C -> bool),
@@ -70,15 +96,26 @@ Theorem C04_truncate_keeps_largest : forall {C} (key_leb : C -> C -> bool),
     forall kept dropped, In kept (firstn size r) -> In dropped (skipn size r) -> key_leb dropped kept = true.
 Proof. exact (@truncate_keeps_largest). Qed.
 
+(* with the feature compared by Python's `<` on binary64: nothing kept has a smaller feature than anything dropped *)
+Theorem C04_truncate_float : forall {C} (feat : C -> PrimFloat.float) a size,
+  let t := archive_truncate (key_leb_of fltb feat) a size true in
+  exists dropped, Permutation (t ++ dropped) a /\ length t = Nat.min size (length a) /\
+    forall k d, In k t -> In d dropped -> fltb (feat k) (feat d) = false.
+Proof. exact (fun C => truncate_keeps_largest_key fltb fltb_SWO). Qed.
+
 Print Assumptions C04_add_refines.
 Print Assumptions C04_add_reports.
 Print Assumptions C04_history_is_maximal_set.
 Print Assumptions C04_members_mutually_nondominated.
 Print Assumptions C04_rejected_or_evicted_is_covered.
 Print Assumptions C04_order_independent.
+Print Assumptions C04_remove_keeps_invariant.
 Print Assumptions C04_pareto_laws.
+Print Assumptions C04_eps_laws.
 Print Assumptions C04_float_history.
+Print Assumptions C04_float_eps_history.
 Print Assumptions C04_truncate_keeps_largest.
+Print Assumptions C04_truncate_float.
 
 (* non-vacuity: a concrete history over integer costs meets the hypotheses and evicts/rejects *)
 Example C04_ex_history :
@@ -88,3 +125,34 @@ Example C04_ex_history :
   Forall (awf 2) xs /\
   map fst (archive_adds (acmp Z.ltb) (aceq Z.ltb) [] xs) = [4; 5].
 Proof. cbn zeta. split; [repeat constructor | vm_compute; reflexivity]. Qed.
+
+(* the same history through the epsilon comparator (scaling x -> 2x, i.e. epsilon = 1/2) meets every hypothesis *)
+Example C04_ex_eps_history :
+  let sc := fun (_ : nat) (x : Z) => (2 * x)%Z in
+  let dist := fun (_ : @aind Z) => 0%Z in
+  let xs : list (@aind Z) :=
+    [(0, ([3; 1]%Z, 1%Z)); (1, ([2; 2]%Z, 1%Z)); (2, ([1; 3]%Z, 1%Z)); (3, ([2; 2]%Z, 1%Z));
+     (4, ([0; 4]%Z, 1%Z)); (5, ([1; 1]%Z, 1%Z)); (6, ([5; 5]%Z, 1%Z))] in
+  (forall x, In x xs -> awf 2 x) /\
+  (forall x y, In x xs -> In y xs -> separated Z.ltb sc (fst (acost x)) (fst (acost y))) /\
+  (forall x y, In x xs -> In y xs -> Z.abs (snd (acost x)) = Z.abs (snd (acost y)) -> snd (acost x) = snd (acost y)) /\
+  (forall x y, In x xs -> In y xs -> aceq Z.ltb x y = true -> Z.ltb (dist x) (dist y) = false) /\
+  map fst (archive_adds (ecmp Z.ltb sc dist) (aceq Z.ltb) [] xs) = [4; 5].
+Proof.
+  cbn zeta. split; [|split; [|split; [|split]]].
+  - apply Forall_forall. repeat constructor.
+  - intros x y _ _. apply separated_monotone.
+    + intros _ a b E. apply Z.ltb_lt in E. apply Z.ltb_lt. apply Z.mul_lt_mono_pos_l; [reflexivity | exact E].
+    + intros _ a b E _. apply Z.ltb_ge in E. apply Z.ltb_ge. apply Z.mul_le_mono_nonneg_l; [discriminate | exact E].
+  - assert (M : Forall (fun x : @aind Z => snd (acost x) = 1%Z)
+      [(0, ([3; 1]%Z, 1%Z)); (1, ([2; 2]%Z, 1%Z)); (2, ([1; 3]%Z, 1%Z)); (3, ([2; 2]%Z, 1%Z));
+       (4, ([0; 4]%Z, 1%Z)); (5, ([1; 1]%Z, 1%Z)); (6, ([5; 5]%Z, 1%Z))]) by (repeat constructor).
+    rewrite Forall_forall in M. intros x y Hx Hy _. rewrite (M x Hx), (M y Hy). reflexivity.
+  - intros; reflexivity.
+  - vm_compute. reflexivity.
+Qed.
+
+(* truncate: stable sort by the feature, reversed, first `size` *)
+Example C04_ex_truncate :
+  archive_truncate (key_leb_of Z.ltb (@snd nat Z)) [(0, 3%Z); (1, 1%Z); (2, 3%Z); (3, 2%Z)] 2 true = [(2, 3%Z); (0, 3%Z)].
+Proof. vm_compute. reflexivity. Qed.
